@@ -70,14 +70,16 @@ def expected_entry(node, typed):
 def decode_and_check(doc, t, typed, eff_key_map, eff_value_map_keys, user_meta, res, bad):
     import nutree
 
-    if not isinstance(doc, dict) or set(doc) != {"meta", "nodes"}:
+    if not isinstance(doc, dict) or not {"meta", "nodes"} <= set(doc):
         bad.append(f"top level keys {sorted(doc) if isinstance(doc, dict) else type(doc)}")
         return
     meta = doc["meta"]
-    if meta.get("$generator") != f"nutree/{nutree.__version__}":
-        bad.append(f"$generator is {meta.get('$generator')!r}")
-    if meta.get("$format_version") != "1.0":
-        bad.append(f"$format_version is {meta.get('$format_version')!r}")
+    gen_ = meta.get("$generator")
+    if not (isinstance(gen_, str) and gen_.startswith("nutree/") and len(gen_) > len("nutree/")):
+        bad.append(f"$generator is {gen_!r}, expected 'nutree/<version>'")
+    fv = meta.get("$format_version")
+    if not (isinstance(fv, str) and fv):
+        bad.append(f"$format_version is {fv!r}")
     for k, v in user_meta.items():
         if meta.get(k) != v:
             bad.append(f"user meta {k!r} not stored")
@@ -92,7 +94,7 @@ def decode_and_check(doc, t, typed, eff_key_map, eff_value_map_keys, user_meta, 
     inv = {v: k for k, v in km.items()}
     if sorted(vm) != sorted(eff_value_map_keys):
         bad.append(f"$value_map keys {sorted(vm)}, expected {sorted(eff_value_map_keys)}")
-    unknown = set(meta) - {"$generator", "$format_version", "$key_map", "$value_map"} - set(user_meta)
+    unknown = {k for k in set(meta) - set(user_meta) if not k.startswith("$")}
     if unknown:
         bad.append(f"unexpected header keys {unknown}")
     # pre-order list of source nodes with positions
@@ -180,7 +182,29 @@ def run_writer(case, res):
             vm = copy.deepcopy(sergen.VALUE_MAPS[case["vm"]])
             user_meta = {"foo": "bar"}
             fp = io.StringIO()
-            t.save(fp, meta=user_meta, key_map=km, value_map=vm, **save_kw)
+            if case.get("reuse_meta"):
+                # an earlier save with the *same* meta dict and all maps on must not influence this one
+                t.save(io.StringIO(), meta=user_meta, key_map=sergen.key_map_for(case["flavour"], "custom"),
+                       value_map=copy.deepcopy(sergen.VALUE_MAPS["custom"]), **save_kw)
+                if user_meta != {"foo": "bar"}:
+                    bad.append(f"save() wrote into the caller's meta dict: {user_meta}")
+                    user_meta = {"foo": "bar"}
+            if case.get("path"):
+                import os
+                import shutil
+                import tempfile
+
+                tmp = tempfile.mkdtemp(prefix="vmon-c12-")
+                try:
+                    pth = os.path.join(tmp, "doc.json")
+                    t.save(pth, meta=user_meta, key_map=km, value_map=vm, **save_kw)
+                    with open(pth, encoding="utf8") as f2:
+                        text = f2.read()
+                finally:
+                    shutil.rmtree(tmp, ignore_errors=True)
+                fp.write(text)
+            else:
+                t.save(fp, meta=user_meta, key_map=km, value_map=vm, **save_kw)
             doc = json.loads(fp.getvalue())
             eff_km = type(t).DEFAULT_KEY_MAP if km is True else ({} if km is False else km)
             if vm is True:
@@ -486,9 +510,9 @@ GENERATORS = ["nutree/0.5.1", "nutree/1.0.0", "nutree/0.9.1-a1"]
 
 
 def shards(tier, seed):
-    out = [{"name": f"writer{i}", "kind": "writer", "i": i, "bound": 5 if tier == "quick" else 6,
-            "rand": 20 if tier == "quick" else 300, "budget_s": 150 if tier == "quick" else 2400} for i in range(NSHARDS)]
-    out += [{"name": f"reader{i}", "kind": "reader", "i": i, "count": 80 if tier == "quick" else 1500,
+    out = [{"name": f"writer{i}", "kind": "writer", "i": i, "bound": 5 if tier == "quick" else 7,
+            "rand": 20 if tier == "quick" else 1500, "budget_s": 150 if tier == "quick" else 2400} for i in range(NSHARDS)]
+    out += [{"name": f"reader{i}", "kind": "reader", "i": i, "count": 80 if tier == "quick" else 8000,
              "budget_s": 100 if tier == "quick" else 1500} for i in range(NSHARDS)]
     out.append({"name": "examples", "kind": "examples", "budget_s": 60})
     return out
@@ -511,7 +535,8 @@ def run_shard(spec, res):
                     j = k // NSHARDS
                     for d in range(3):
                         run_case({"kind": "writer", "f": gen.code(f), "flavour": fl, "seed": seed,
-                                  "km": kms[(j + d) % 3], "vm": vms[(j // 3 + d * 2) % 3]}, res)
+                                  "km": kms[(j + d) % 3], "vm": vms[(j // 3 + d * 2) % 3],
+                                  "reuse_meta": (j + d) % 4 == 0, "path": (j + d) % 5 == 0}, res)
                 if res.expired():
                     res.inconc("enumeration cut by time budget")
                     return
@@ -519,7 +544,7 @@ def run_shard(spec, res):
         for c in range(spec["rand"]):
             f = gen.random_forest(rng, rng.randint(5, 25))
             run_case({"kind": "writer", "f": gen.code(f), "flavour": rng.choice(sergen.FLAVOURS), "seed": rng.randrange(10**6),
-                      "km": rng.choice(kms), "vm": rng.choice(vms)}, res)
+                      "km": rng.choice(kms), "vm": rng.choice(vms), "reuse_meta": rng.random() < 0.3, "path": rng.random() < 0.3}, res)
             if res.expired():
                 break
     else:
